@@ -10,7 +10,9 @@ Open Scope string_scope.
    so the harness gives up its references, but nothing is released.
    CNvid: the builder call no_verify_in_drop() made late (it takes the instance by value: references are given up;
    nothing is released). *)
-Inductive cop := CRef (ty v : N) | CMut (ty v : N) | CLive | CHelp (ty v : N) | CTouch | CNvid | CConsume.
+Inductive cop := CRef (ty v : N) | CMut (ty v : N) | CLive | CHelp (ty v : N) | CTouch | CNvid | CConsume
+  | CMutM (ty v : N).   (* a mocked `&mut self` method with a `&mut` result (kind MutLending, or Mixed with a `&mut` leaf), answered
+                           with `u.make_mut(..)`: src/output/mut_lending.rs + the polonius template of the attribute *)
 
 Definition show_lval (x : lval) : string := dec (fst x) ++ ":" ++ dec (snd x).
 Definition show_held (l : list lval) : string := "[" ++ join "," (map show_lval l) ++ "]".
@@ -37,6 +39,12 @@ Definition cop_step (others : N) (ci : cinst) (o : cop) : cinst * string :=
     (* the value is changed through the &mut reference before it is read back; only the instance's OWN
        chain is replaced *)
     let v' := if N.ltb ty 2 then (v + 1000)%N else 0%N in
+    let ci1 := {| ci_chain := fst (push_mut (ci_chain ci) (ty, v')); ci_helper := ci_helper ci; ci_held := [] |} in
+    (ci1, line [(ty, v')] (others + ci_size ci1))
+  | CMutM ty v =>
+    (* the answer function is handed the caller's `&mut Unimock`: the value goes to the instance's OWN chain, which it replaces;
+       the reference the caller gets is the one make_mut returned (written through, then read back) *)
+    let v' := (v + 1000)%N in
     let ci1 := {| ci_chain := fst (push_mut (ci_chain ci) (ty, v')); ci_helper := ci_helper ci; ci_held := [] |} in
     (ci1, line [(ty, v')] (others + ci_size ci1))
   | CTouch =>
